@@ -7,6 +7,7 @@
 -/
 import CnvVerif.Generated.ExprsRanges
 import CnvVerif.Model.RangesExt
+import CnvVerif.Lemmas.Ranges
 set_option linter.unusedSimpArgs false
 set_option linter.unusedVariables false
 namespace CnvVerif.Src
@@ -42,8 +43,21 @@ def modelNestedMask (t : Table) (qs qe : Option Int) (inner : Bool) : List Bool 
 theorem irangeNested_eq_modelMask (t : Table) (qs qe : Option Int) (inner : Bool) :
     irangeNested t qs qe inner = applyMask t (modelNestedMask t qs qe inner) := rfl
 
-theorem modelNestedMask_is_source (t : Table) (qs qe : Option Int) (inner : Bool) :
+theorem ssLeft_zero_of_nonneg (t : Table) (h : ∀ r ∈ t, 0 ≤ r.s) : ssLeft (t.map (·.s)) 0 = 0 := by
+  unfold ssLeft
+  rw [List.countP_eq_zero]
+  intro x hx
+  rw [List.mem_map] at hx
+  obtain ⟨r, hr, rfl⟩ := hx
+  have := h r hr
+  simp only [decide_eq_true_eq]
+  omega
+
+/-- on a well-formed table (coordinates ≥ 0, start < end) — so that the test `if start_val:` and the test
+    `if start_val is not None:` read the same: a start bound of 0 excludes no row either way -/
+theorem modelNestedMask_is_source (t : Table) (h : WFTable t) (qs qe : Option Int) (inner : Bool) :
     modelNestedMask t qs qe inner = srcNestedMask t inner qs qe := by
+  have hss : ssLeft (t.map (·.s)) 0 = 0 := ssLeft_zero_of_nonneg t (fun r hr => (h.2 r hr).1)
   unfold modelNestedMask srcNestedMask enumRows
   apply List.ext_getElem
   · cases qs with
@@ -51,6 +65,12 @@ theorem modelNestedMask_is_source (t : Table) (qs qe : Option Int) (inner : Bool
     | some s =>
       by_cases hs : s = 0 <;> cases qe <;> cases inner <;> simp [maskFrom, maskUpto, hs]
   · intro k h1 h2
+    have hk : k < t.length := by
+      simp only [List.length_map, List.length_zip, List.length_range, Nat.min_self] at h2
+      exact h2
+    have he : 0 < t[k].e := by
+      have := h.2 t[k] (List.getElem_mem hk)
+      omega
     unfold src_irange_nested_mask
     cases qs with
     | none =>
@@ -60,15 +80,15 @@ theorem modelNestedMask_is_source (t : Table) (qs qe : Option Int) (inner : Bool
     | some s =>
       by_cases hs : s = 0
       · cases qe with
-        | none => simp [hs]
-        | some e => cases inner <;> simp [maskFrom, maskUpto, hs]
+        | none => cases inner <;> simp [maskFrom, maskUpto, hs, hss, he]
+        | some e => cases inner <;> simp [maskFrom, maskUpto, hs, hss, he]
       · cases qe with
         | none => cases inner <;> simp [maskFrom, maskUpto, hs]
         | some e => cases inner <;> simp [maskFrom, maskUpto, hs]
 
-theorem irangeNested_mask_is_source (t : Table) (qs qe : Option Int) (inner : Bool) :
+theorem irangeNested_mask_is_source (t : Table) (h : WFTable t) (qs qe : Option Int) (inner : Bool) :
     irangeNested t qs qe inner = applyMask t (srcNestedMask t inner qs qe) := by
-  rw [irangeNested_eq_modelMask, modelNestedMask_is_source]
+  rw [irangeNested_eq_modelMask, modelNestedMask_is_source t h]
 
 /-! ### `_irange_simple` -/
 
@@ -94,32 +114,17 @@ theorem idxSelect_path_is_source (t : Table) (qs qe : Option Int) (inner : Bool)
 
 /-! ### the trim step of `iter_ranges` -/
 
-theorem trimRows_is_source (rows : Table) (qs qe : Option Int) :
-    trimRows rows qs qe = rows.map (fun r =>
-      { r with s := (src_iter_ranges_clip true qs qe r.s r.e).1, e := (src_iter_ranges_clip true qs qe r.s r.e).2 }) := by
-  unfold trimRows src_iter_ranges_clip
-  apply List.map_congr_left
-  intro r _
-  cases qs with
-  | none => cases qe with
-    | none => simp
-    | some e => by_cases he : e = 0 <;> simp [he]
-  | some s =>
-    by_cases hs : s = 0
-    · cases qe with
-      | none => simp [hs]
-      | some e => by_cases he : e = 0 <;> simp [hs, he]
-    · cases qe with
-      | none => simp [hs]
-      | some e => by_cases he : e = 0 <;> simp [hs, he]
-
 /-- outside trim mode the selected rows are yielded untouched -/
 theorem no_clip_outside_trim (qs qe : Option Int) (s e : Int) : src_iter_ranges_clip false qs qe s e = (s, e) := by
   unfold src_iter_ranges_clip
   simp
 
-/-- `selectRange` = the generated path choice, then the generated clipping -/
-theorem selectRange_is_source (t : Table) (qs qe : Option Int) (mode : Mode) :
+/-- `selectRange` = the generated path choice, then the generated clipping of every SELECTED row.  Stated on
+    well-formed tables and for the rows the query selects, where `if start_val:` / `if end_val:` and the `is not None`
+    spellings read the same (a selected row has `0 ≤ start < end_val`, so `end_val ≠ 0`, and clipping at 0 from below
+    changes nothing). -/
+theorem selectRange_is_source (t : Table) (h : WFTable t) (qs qe : Option Int)
+    (hq : ∀ s, qs = some s → 0 ≤ s) (mode : Mode) :
     selectRange t qs qe mode =
       (idxSelect t qs qe (mode == .inner)).map (fun r =>
         { r with s := (src_iter_ranges_clip (mode == .trim) qs qe r.s r.e).1,
@@ -128,7 +133,41 @@ theorem selectRange_is_source (t : Table) (qs qe : Option Int) (mode : Mode) :
   by_cases hm : mode = .trim
   · subst hm
     simp only [beq_self_eq_true, if_true]
-    exact trimRows_is_source _ qs qe
+    rw [idxSelect_exact t h qs qe hq]
+    unfold trimRows
+    apply List.map_congr_left
+    intro r hr
+    rw [List.mem_filter] at hr
+    obtain ⟨hrt, hsel⟩ := hr
+    have h0 : 0 ≤ r.s := (h.2 r hrt).1
+    have hmode : (Mode.trim == Mode.inner) = false := by decide
+    rw [hmode] at hsel
+    unfold src_iter_ranges_clip
+    cases qs with
+    | none =>
+      cases qe with
+      | none => simp
+      | some e =>
+        have he : e ≠ 0 := by
+          simp [selFilter] at hsel
+          omega
+        simp [he]
+    | some s =>
+      by_cases hs : s = 0
+      · cases qe with
+        | none => simp [hs, Int.max_eq_left h0]
+        | some e =>
+          have he : e ≠ 0 := by
+            simp [selFilter] at hsel
+            omega
+          simp [hs, he, Int.max_eq_left h0]
+      · cases qe with
+        | none => simp [hs]
+        | some e =>
+          have he : e ≠ 0 := by
+            simp [selFilter] at hsel
+            omega
+          simp [hs, he]
   · have hne : (mode == Mode.trim) = false := by cases mode <;> simp_all
     rw [hne]
     simp only [Bool.false_eq_true, if_false, no_clip_outside_trim]
